@@ -3,7 +3,7 @@ PROPERTY = 'C12'
 
 
 def plan(tier, seed):
-    nk, nb, nc, ns, nm = 21, 17, 7, 6, 12
+    nk, nb, nc, ns, nm = 21, 17, 9, 6, 12
     units = []
     q = tier == 'quick'
     for ki in range(nk):
@@ -31,7 +31,7 @@ def plan(tier, seed):
     return dict(units=units,
                 bounds={'kinds': 'the four delimiter pairs and all 17 named math environments', 'bodies': '%d body templates with math-text holes over all code points except \\ { } $ %% NUL DEL CR (brackets and parentheses included), %s' % (nb, 'every 7th (kind, body, context) combination' if q else 'all combinations'),
                         'sizing': 'six sizing prefixes x symbolic single-character delimiter in ( ) < > [ ] . | and the 12 multi-character delimiters',
-                        'contexts': 'top, between text, env body, item, brace argument, group, env with bracket argument',
+                        'contexts': 'top, between text, env body, item, brace argument, group, env with bracket argument, directly after / before a line break',
                         'adjacent': '%d ordered pairs of kinds' % len(pairs)},
                 outside=['[ or { directly (or behind blanks) after an ordinary or sizing command', '$..$ directly followed by another $', 'bodies outside the templates'],
                 assumptions=[])
